@@ -74,7 +74,11 @@ func (t *Terminal) ExpectedReply(seq uint16, msg string) []byte {
 	if v, ok := t.protocolHandles[commandType]; ok {
 		header.ReplyID = uint16(v.ReplyProtocol())
 		header.PlatformSerialNumber = seq
-		body, _ = v.ReplyBody(jtMsg)
+		var err error
+		if body, err = v.ReplyBody(jtMsg); err != nil {
+			// 应答体生成失败时服务端不应答 (connection.defaultReplyEvent) 预期也是没有应答
+			return nil
+		}
 	}
 	return header.Encode(body)
 }
